@@ -107,7 +107,7 @@ def gen_overlay(flags):
 
 
 def build(ovdir, key, pkg, race=False):
-    name = pkg.strip("./").replace("/", "_") + (".race" if race else "") + ".test"
+    name = pkg.strip("./").replace("/", "_") + (".race" if race else "") + (".cover" if os.environ.get("VERIF_COVERPKG") else "") + ".test"
     bdir = os.path.join(WORK, "bin-" + key)
     os.makedirs(bdir, exist_ok=True)
     out = os.path.join(bdir, name)
@@ -117,6 +117,9 @@ def build(ovdir, key, pkg, race=False):
         cmd = ["go", "test", "-c", "-tags", tags, "-vet=off", "-overlay", os.path.join(ovdir, "overlay.json"), "-o", out]
         if race:
             cmd.append("-race")
+        if os.environ.get("VERIF_COVERPKG"):
+            # on-demand vacuity check (coverage.sh): which lines of the code under test does the check execute at all
+            cmd += ["-cover", "-covermode=set", "-coverpkg=" + os.environ["VERIF_COVERPKG"]]
         cmd.append(pkg)
         return subprocess.run(cmd, cwd=REPO, env=goenv(), stdout=subprocess.PIPE, stderr=subprocess.STDOUT, text=True)
     r = compile("verif")
@@ -156,7 +159,11 @@ def run_workers(binary, run, nshards, env, tag, timeout_s, cwd):
         e.setdefault("GOMAXPROCS", "1")
         os.makedirs(e["VERIF_SCRATCH"], exist_ok=True)
         lf = open(os.path.join(scratch, "log-%d.txt" % i), "w")
-        p = subprocess.Popen([binary, "-test.run", "^%s$" % run, "-test.timeout", "0", "-test.v"],
+        extra = []
+        if os.environ.get("VERIF_COVERPKG"):
+            os.makedirs(os.path.join(WORK, "cover"), exist_ok=True)
+            extra = ["-test.coverprofile", os.path.join(WORK, "cover", "%s-%s-%d.out" % (tag, os.getpid(), i))]
+        p = subprocess.Popen([binary, "-test.run", "^%s$" % run, "-test.timeout", "0", "-test.v"] + extra,
                              cwd=cwd, env=e, stdout=lf, stderr=subprocess.STDOUT)
         procs.append((p, lf))
     results = []
